@@ -36,9 +36,15 @@ class SymLeaf(_checks.Check):
         return CUR['ctx'].bool('leaf.' + self.match)
 
 
+LEAF_KINDS = ['sym', 'orsym', 'notsym', 'andsym', 'symor', 'symand',
+              'symnot']
+
+
 def register_leaves():
-    if 'sym' not in _checks.registered_checks:
-        policy.register('sym', SymLeaf)
+    # kinds whose names begin or end like the keywords: still plain checks
+    for k in LEAF_KINDS:
+        if k not in _checks.registered_checks:
+            policy.register(k, SymLeaf)
 
 
 class Scratch:
